@@ -208,6 +208,12 @@ def streams(ctx):
                              "      - uses: docker://ghcr.io/o/i:1\n      - uses: actions/checkout@v4\n", [("actions/checkout", "v4", None)]),
          ("F-C04-13", "jsr", '// deno.jsonc\n{"imports": {"a": "jsr:@std/path@1.0.0"}}', [("@std/path", "1.0.0", None)]),
          ("F-C04-13", "jsr", '/* c */ {\n // d\n"imports": { /* e */ "a": "jsr:@std/path@1.0.0", // f\n "b": "jsr:@std/fs@^2.0.0" }}', [("@std/path", "1.0.0", None), ("@std/fs", "^2.0.0", None)]),
+         # (not findings: corners the mutation run showed no generated document reached - kept as fixed cases of this stream)
+         ("flow-workflow", "gha", "jobs: {build: {runs-on: ubuntu-latest, steps: [{uses: actions/checkout@v4}, {run: make}, {uses: 'a/b@v1.2.3'}]}}\n",
+          [("actions/checkout", "v4", None), ("a/b", "v1.2.3", None)]),
+         ("empty-quoted-value", "pnpm", "catalog:\n  empty: \"\"\n  one: '1'\n  q: ''\n  react: ^18.0.0\n", [("one", "1", None), ("react", "^18.0.0", None)]),
+         ("short-sha-ref", "gha", "jobs:\n  b:\n    steps:\n      - uses: a/b@1a2b3c4\n      - uses: c/d@" + "g" * 40 + "\n      - uses: e/f@" + "0123456789abcdef" * 2 + "01234567 # v1.2.3\n",
+          [("a/b", "1a2b3c4", None), ("c/d", "g" * 40, None), ("e/f", "v1.2.3", "0123456789abcdef" * 2 + "01234567")]),
          ("F-C04-14", "crates", "[dependencies]\n\"serde\" = \"1.0.0\"\n", [("serde", "1.0.0", None)]),
          ("F-C04-14", "pypi", "[project]\n\"dependencies\" = [\"requests>=2.0\"]\n", [("requests", ">=2.0", None)])]
     cw = [{"req": vlib.line("l.parse", eco, text), "eco": eco, "tag": ("witness", kid)} for kid, eco, text, _ in W]
@@ -217,7 +223,9 @@ def streams(ctx):
         for i, ((kid, eco, text, want), o) in enumerate(zip(W, impl)):
             got = sorted((triple(eco, p) for p in pkgs_of(o)), key=str) if not o.startswith(("PANIC", "ABORT", "HANG")) else None
             if got != sorted(want, key=str):
-                der.append({"req": vlib.line("ml.settle"), "index": i, "history": [cs[i]["req"]], "check": (lambda out, kid=kid: ("known", kid))})
+                der.append({"req": vlib.line("ml.settle"), "index": i, "history": [cs[i]["req"]],
+                            "check": (lambda out, kid=kid, got=got, want=want, eco=eco: ("known", kid) if kid.startswith("F-") else
+                                      ("violation", f"{eco} ({kid}): checked {got}, the document declares {sorted(want, key=str)}"))})
         return der
     st_w = Stream("finding-witnesses", cw, nontrivial=lambda c, o: True, derive=derive_w, model_eq=lambda i, m: True, shrinkable=False, nt_on_impl=True)
     return [st_a, st_b, st_w]
